@@ -150,7 +150,10 @@ impl MT942 {
 
     /// Get the base currency from the mandatory debit floor limit
     fn get_base_currency(&self) -> &str {
-        &self.floor_limit_debit.currency[0..2]
+        self.floor_limit_debit
+            .currency
+            .get(0..2)
+            .unwrap_or_default()
     }
 
     // ========================================================================
@@ -166,7 +169,7 @@ impl MT942 {
 
         // Check floor limit credit if present
         if let Some(ref floor_limit_credit) = self.floor_limit_credit {
-            let credit_currency = &floor_limit_credit.currency[0..2];
+            let credit_currency = floor_limit_credit.currency.get(0..2).unwrap_or_default();
             if credit_currency != base_currency {
                 errors.push(SwiftValidationError::content_error(
                     "C27",
@@ -183,7 +186,7 @@ impl MT942 {
 
         // Check field 90D if present
         if let Some(ref field_90d) = self.field_90d {
-            let field_90d_currency = &field_90d.currency[0..2];
+            let field_90d_currency = field_90d.currency.get(0..2).unwrap_or_default();
             if field_90d_currency != base_currency {
                 errors.push(SwiftValidationError::content_error(
                     "C27",
@@ -200,7 +203,7 @@ impl MT942 {
 
         // Check field 90C if present
         if let Some(ref field_90c) = self.field_90c {
-            let field_90c_currency = &field_90c.currency[0..2];
+            let field_90c_currency = field_90c.currency.get(0..2).unwrap_or_default();
             if field_90c_currency != base_currency {
                 errors.push(SwiftValidationError::content_error(
                     "C27",
